@@ -2,3 +2,6 @@ import Spade.Properties.C10
 #print axioms Spade.C10_isSubseq_iff
 #print axioms Spade.C10_insert_prefix
 #print axioms Spade.C10_insertAll_size
+#print axioms Spade.C10_stable_order_model
+#print axioms Spade.C10_swap_loop_model
+#print axioms Spade.C10_stable_tail_shape
